@@ -256,6 +256,16 @@ class SpelledGroup(coremodel.Group):
             return plain_desc_of(py)
         self.reg.desc_of = desc_of
 
+    _last_observed = None
+
+    def observe(self, *args, **kwargs):
+        # every pass over the groups (cold cases, the shared warm-replay pass, order collection) may come back to
+        # this module after another one evaluated the same text: start from empty typing caches at every switch
+        if SpelledGroup._last_observed is not self:
+            fresh_typing()
+            SpelledGroup._last_observed = self
+        return super().observe(*args, **kwargs)
+
     def collect_orders(self, pytype, depth=0):
         """coremodel.Group.collect_orders, plus: a member that IS a reference (a signature string) is not flagged
         cyclic by the graph but is built as a delayed proxy all the same: the order of what it evaluates to is
@@ -552,7 +562,7 @@ def build(run, which, depths, D):
         g.c07_stratum = which
         for ri, root in enumerate(roots):
             if label.startswith("self/"):
-                ds = sorted({0, 1, D} | ({3, depths[-1]} if run.tier == "thorough" else set()))
+                ds = sorted({0, 1, D} | ({3, 12} if run.tier == "thorough" else set()))
             else:
                 ds = depths if root[0] == "name" else depths[:3]
             for d in ds:
